@@ -67,12 +67,28 @@ theorem stepInstr_preserves (P : Ctx → Prop) (H : OpsPreserve P) (s : St) (i :
       · exact hs
       · trivial
     · exact hs
+  · have hs := H.slotat s.ctx (s8 (ps.getD 2 0)) h
+    split
+    · split
+      · exact hs
+      · trivial
+    · exact hs
+  · have hs := H.slotat s.ctx (s8 (ps.getD 1 0)) h
+    split
+    · split
+      · exact hs
+      · trivial
+    · exact hs
   · split
     · have := H.attrSet s.ctx (ps.getD 0 0) 0 (i16 ‹Int›) h
       split <;> rename_i heq <;> rw [heq] at this <;> first | exact this | trivial
     · trivial
   · split
     · have := H.attrSet s.ctx (ps.getD 0 0) 0 (i16 (i32 (‹Int› + curAttr s.ctx (ps.getD 0 0)))) h
+      split <;> rename_i heq <;> rw [heq] at this <;> first | exact this | trivial
+    · trivial
+  · split
+    · have := H.attrSet s.ctx (ps.getD 0 0) 0 (i16 (i32 (curAttr s.ctx (ps.getD 0 0) - ‹Int›))) h
       split <;> rename_i heq <;> rw [heq] at this <;> first | exact this | trivial
     · trivial
   · split
